@@ -192,10 +192,12 @@ func parseUnsafeRoutes(c *config.C, networks []netip.Prefix) ([]Route, error) {
 
 		metric, ok := rMetric.(int)
 		if !ok {
-			_, err = strconv.ParseInt(rMetric.(string), 10, 32)
+			var parsed int64
+			parsed, err = strconv.ParseInt(rMetric.(string), 10, 32)
 			if err != nil {
 				return nil, fmt.Errorf("entry %v.metric in tun.unsafe_routes is not an integer: %v", i+1, err)
 			}
+			metric = int(parsed)
 		}
 
 		if metric < 0 || metric > math.MaxInt32 {
@@ -248,10 +250,12 @@ func parseUnsafeRoutes(c *config.C, networks []netip.Prefix) ([]Route, error) {
 
 				gatewayWeight, ok := rGatewayWeight.(int)
 				if !ok {
-					_, err = strconv.ParseInt(rGatewayWeight.(string), 10, 32)
+					var parsed int64
+					parsed, err = strconv.ParseInt(rGatewayWeight.(string), 10, 32)
 					if err != nil {
 						return nil, fmt.Errorf("entry .weight in tun.unsafe_routes[%v].via[%v] is not an integer", i+1, ig+1)
 					}
+					gatewayWeight = int(parsed)
 				}
 
 				if gatewayWeight < 1 || gatewayWeight > math.MaxInt32 {
